@@ -27,14 +27,14 @@ type c05Spec struct {
 	Resetup  bool   `json:"resetup_crashed_hosts"`
 	Maint    string `json:"maintenance"`   // none full_requested full_acked light
 	LastSw   string `json:"last_switch"`   // none auto_young auto_old manual_young
-	Master   string `json:"master_cond"`   // mysql_crash host_dead flapping ro_fs crash_recovered unreachable_from_manager zk_only_loss
+	Master   string `json:"master_cond"`   // mysql_crash host_dead flapping ro_fs crash_recovered unreachable_from_manager zk_only_loss suspicious_between_bad
 	Replicas string `json:"replica_state"` // ok one_dead all_dead one_stopped
 	List     string `json:"active_list"`   // full master_plus_one
 	Handover bool   `json:"manager_handover"`
 	Expect   string `json:"closed_gate_by_construction"`
 }
 
-var c05Masters = []string{"mysql_crash", "host_dead", "flapping", "ro_fs", "crash_recovered", "unreachable_from_manager", "zk_only_loss"}
+var c05Masters = []string{"mysql_crash", "host_dead", "flapping", "ro_fs", "crash_recovered", "unreachable_from_manager", "zk_only_loss", "suspicious_between_bad"}
 
 func c05Gen(seed int64, idx int) c05Spec {
 	r := rand.New(rand.NewSource(seed))
@@ -62,6 +62,9 @@ func c05Gen(seed int64, idx int) c05Spec {
 	case 8:
 		sp.Handover, sp.Expect = true, "all-open"
 	}
+	if sp.Master == "suspicious_between_bad" {
+		sp.DelayS = 15
+	}
 	if sp.Master == "unreachable_from_manager" || sp.Master == "zk_only_loss" {
 		sp.Expect = "suspicious-or-still-replicating"
 	}
@@ -82,6 +85,7 @@ type c05Iter struct {
 	acts              []string // mutating actions after the instance's probe of the master had failed
 	created           bool
 	masterProbeFailed bool
+	master            string // the recorded master when the iteration began
 }
 
 type c05Monitor struct {
@@ -107,7 +111,7 @@ func newC05Monitor(sc *Scen, sp c05Spec) *c05Monitor {
 			return
 		}
 		if begin {
-			m.it[inst] = &c05Iter{begin: s.W.Now(), health: map[string]string{}, ping: map[string]bool{}, rs: map[string]string{}, maint: "unread"}
+			m.it[inst] = &c05Iter{master: s.CachedMaster(), begin: s.W.Now(), health: map[string]string{}, ping: map[string]bool{}, rs: map[string]string{}, maint: "unread"}
 			return
 		}
 		m.endIter(inst)
@@ -168,7 +172,7 @@ func newC05Monitor(sc *Scen, sp c05Spec) *c05Monitor {
 		if c.Mut && it.masterProbeFailed {
 			it.acts = append(it.acts, "sql "+c.Class+"@"+c.Host)
 		}
-		if (c.Class == "ping" || c.Class == "dial") && c.Host == m.sc.S.CachedMaster() && c.Errno != 0 {
+		if (c.Class == "ping" || c.Class == "dial") && c.Host == it.master && c.Errno != 0 {
 			it.masterProbeFailed = true
 		}
 	})
@@ -210,7 +214,7 @@ func (m *c05Monitor) endIter(inst string) {
 	if it == nil {
 		return
 	}
-	master := m.sc.S.CachedMaster()
+	master := it.master
 	res, read := it.health[master]
 	if !read {
 		return
@@ -441,6 +445,20 @@ func c05Run(u *Unit) {
 			}
 		case "zk_only_loss":
 			s.CutZK(master, true)
+		case "suspicious_between_bad":
+			// a history of observations: one bad evaluation while the replicas still replicate (the master's daemon is
+			// away for a moment), then a good record that the manager cannot confirm (it cannot reach the master's MySQL)
+			// for longer than the delay, then the master really dies: the delay counts from the last streak only
+			mgr := lockHolder(s)
+			if in := s.InstByName(mgr); in != nil {
+				s.W.Cut(in.Host, master, true)
+			}
+			in := s.Kill(master)
+			<-in.Done()
+			time.Sleep(9 * time.Second)
+			s.StartInst(master, 0)
+			time.Sleep(time.Duration(sp.DelayS+8) * time.Second)
+			s.W.Crash(master)
 		}
 		if sp.Handover {
 			// in the middle of the bad streak the lock moves to another daemon
@@ -468,9 +486,9 @@ func c05Run(u *Unit) {
 }
 
 func init() {
-	register(&Prop{ID: "C05", Units: func(tier string) int { return tierN(tier, 252, 6300) }, Run: c05Run,
+	register(&Prop{ID: "C05", Units: func(tier string) int { return tierN(tier, 288, 7200) }, Run: c05Run,
 		Floor: func(string) []string {
 			return []string{"filed", "filed:waiver=none", "filed:waiver=ro-fs", "not-filed:G1-disabled", "not-filed:G2-maintenance", "not-filed:G7-cooldown", "not-filed:G6-quorum", "suspicious-master-iteration"}
 		},
-		Rule: "scenario = master condition (7 kinds) x one gate closed by construction (or none) x seeded cluster shape, delay, resetup switch, last-switch record, replica states, list contents, manager hand-over in mid-streak; every creation of an automatic request is judged against all gates on the filing instance's own view; non-trivial = a request was filed, or exactly one gate was closed and none was filed (counted separately); distinct by the tuple in the cover key"})
+		Rule: "scenario = master condition (8 kinds, one of them a three-phase history: a bad evaluation, then a good record the manager cannot confirm for longer than the delay, then the real failure) x one gate closed by construction (or none) x seeded cluster shape, delay, resetup switch, last-switch record, replica states, list contents, manager hand-over in mid-streak; every creation of an automatic request is judged against all gates on the filing instance's own view; non-trivial = a request was filed, or exactly one gate was closed and none was filed (counted separately); distinct by the tuple in the cover key"})
 }
